@@ -3,7 +3,7 @@
    arithmetic are proved for EVERY instance (E, LW) of the EdLaws record (Model/EdClass.v): the group laws are
    hypotheses of the statement, hence the suffix `_partial`.
    This file contains only statements (pinned by Check), `exact` proofs and assumption audits. *)
-From MRS Require Import Proofs.KeysProofs.
+From MRS Require Import Proofs.KeysProofs Proofs.EdInstProofs.
 Open Scope Z_scope.
 
 (* ---- secret keys -------------------------------------------------------------------------------------------- *)
@@ -100,6 +100,17 @@ Theorem C13_panic_only_if_undecodable : forall (E : EdOps) a b,
   pk_add a b = Panic <-> (decompress a = None \/ decompress b = None).
 Proof. intros E. exact pk_add_panics. Qed.
 
+(* ---- the executable Ed25519 instance: accepted keys are in canonical range (unconditional, no EdLaws) ------------- *)
+(* y = k mod 2^255 is below the field prime p, the sign bit is the parity of x < p, and it is clear when x = 0
+   (neither non-canonical y nor "negative zero" is accepted).  That (x, y) satisfies the curve equation is NOT proved
+   here (it needs the correctness of the square-root/inversion, i.e. primality of p). *)
+Theorem C13_public_canonical_range : forall k, @pk_from_slice ed25519_ops k = Ok k ->
+  exists P, Ed25519.decompress k = Some P /\
+    let x := fst (Ed25519.affine P) in let y := snd (Ed25519.affine P) in
+    0 <= x < Ed25519.fp /\ 0 <= y < Ed25519.fp /\ le2z k = y + (x mod 2) * 2 ^ 255 /\
+    le2z k mod 2 ^ 255 = y /\ (x = 0 -> le2z k < 2 ^ 255).
+Proof. exact inst_accepted_canonical. Qed.
+
 (* non-vacuity / sanity on the concrete arithmetic (curve known-answer tests are in Proofs/EdKAT.v) *)
 Example C13_ex_l_minus_1 : sk_from_slice (sk_to_bytes (ell - 1)) = Ok (ell - 1) /\ sk_from_slice (sk_to_bytes ell) = Err EBad.
 Proof. split; vm_compute; reflexivity. Qed.
@@ -150,6 +161,11 @@ Check C13_closed_partial : forall (E : EdOps) (LW : EdLaws E) a b s,
   pk_from_slice (pk_from_priv s) = Ok (pk_from_priv s).
 Check C13_panic_only_if_undecodable : forall (E : EdOps) a b,
   pk_add a b = Panic <-> (decompress a = None \/ decompress b = None).
+Check C13_public_canonical_range : forall k, @pk_from_slice ed25519_ops k = Ok k ->
+  exists P, Ed25519.decompress k = Some P /\
+    let x := fst (Ed25519.affine P) in let y := snd (Ed25519.affine P) in
+    0 <= x < Ed25519.fp /\ 0 <= y < Ed25519.fp /\ le2z k = y + (x mod 2) * 2 ^ 255 /\
+    le2z k mod 2 ^ 255 = y /\ (x = 0 -> le2z k < 2 ^ 255).
 
 Print Assumptions C13_secret.
 Print Assumptions C13_secret_roundtrip.
@@ -167,3 +183,4 @@ Print Assumptions C13_pub_mul_partial.
 Print Assumptions C13_add_sub_partial.
 Print Assumptions C13_closed_partial.
 Print Assumptions C13_panic_only_if_undecodable.
+Print Assumptions C13_public_canonical_range.
